@@ -104,9 +104,12 @@ class X509(object):
         if self.sigalg == RSA_PSS_OID:
             sigalg_hash = signature_algorithm_identifier.getChild(1)
             sigalg_hash = bytes(sigalg_hash.getChild(0).value)
-            self.sigalg = AlgorithmOID.oid[sigalg_hash]
+            sigalg_oid = sigalg_hash
         else:
-            self.sigalg = AlgorithmOID.oid[self.sigalg]
+            sigalg_oid = self.sigalg
+        if sigalg_oid not in AlgorithmOID.oid:
+            raise SyntaxError("Unrecognized signature AlgorithmIdentifier")
+        self.sigalg = AlgorithmOID.oid[sigalg_oid]
 
         # Get the tbsCertificate
         tbs_certificate = parser.getChild(0)
